@@ -77,8 +77,9 @@ RwAllowed(X, r) ==
   \cup (IF \E i \in Idx(X.Vw) : X.Vw.toks[i].k \in CfiKinds
         THEN {"AsmSyntaxError", "UnsupportedAssemblyError"} ELSE {})
   \* documented: "Cannot create a zero-sized block with a label" in another section
+  \* (a label at the very end of another section may be left on such a block)
   \cup (IF \E i \in Idx(X.Vw) : /\ X.Vw.toks[i].k = "label" /\ X.Vw.pos[i].sec # "text"
-                                 /\ X.Vw.len[X.Vw.pos[i].sec] = 0
+                                 /\ X.Vw.pos[i].o = X.Vw.len[X.Vw.pos[i].sec]
         THEN {"NotImplementedError"} ELSE {})
 RwCompletes(X) == \A i \in DOMAIN X.t.rw : X.t.rw[i].exc \in RwAllowed(X, X.t.rw[i])
 \* distances label - expression in the stand-alone result
